@@ -132,8 +132,12 @@ class Ctx:
         from .source import AnalysisError
         try:
             fn(self, *args)
-        except AnalysisError:
-            raise
+        except AnalysisError as e:
+            # a pointed finding already reported stands on its own statement: a shape rule that then loses its anchor is recorded as
+            # undecided (still exit 2 on its own) instead of aborting the run and hiding the finding.  Pointed rules therefore run first.
+            if not any(o.status == BAD and getattr(o, "pointed", False) for o in self.obs):
+                raise
+            self.unknown(fn.__name__.upper(), f"{fn.__module__.split('.')[-1]}.{fn.__name__}", "the rule finds its anchor", str(e), required=True)
         except Exception as e:       # noqa: BLE001 - deliberately broad: any crash of a rule is "no longer decidable"
             import traceback
             tb = traceback.extract_tb(e.__traceback__)[-1]
